@@ -635,8 +635,9 @@ htp_status_t htp_tx_req_process_body_data_ex(htp_tx_t *tx, const void *data, siz
             // Send data buffer to the decompressor.
             htp_gzip_decompressor_decompress(tx->connp->req_decompressor, &d);
 
-            if (data == NULL) {
-                // Shut down the decompressor, if we used one.
+            if ((data == NULL) && ((len == 0) || (!tx->connp->req_decompressor->passthrough))) {
+                // Shut down the decompressor, if we used one. A stream gap
+                // that was merely passed through leaves nothing to shut down.
                 htp_tx_req_destroy_decompressors(tx->connp);
             }
             break;
@@ -992,8 +993,10 @@ htp_status_t htp_tx_res_process_body_data_ex(htp_tx_t *tx, const void *data, siz
                 }
             }
 
-            if (data == NULL) {
-                // Shut down the decompressor, if we used one.
+            if ((data == NULL) && ((len == 0) || (!tx->connp->out_decompressor->passthrough))) {
+                // Shut down the decompressor, if we used one. A stream gap
+                // that was merely passed through leaves nothing to shut down:
+                // the chain has to stay, or the end of the body is never reported.
                 htp_tx_res_destroy_decompressors(tx->connp);
             }
             break;
